@@ -25,13 +25,16 @@ IsEvent(e) == l <= Len(H.events) /\ Ev.op = e /\ l' = l + 1 /\ UNCHANGED k
 Becomes(new) == st' = new /\ Ev.state = new
 Refs(ev) == [q \in DOMAIN ev.refs |-> <<ev.refs[q][1], ev.refs[q][2]>>]
 
+\* the closure that writes the replacement body is handed the parameters of the function being made
+HandedParams == "handed" \in DOMAIN Ev.ret => Ev.ret.handed = Ev.ret.params
+
 TReplaceImported ==
-  /\ IsEvent("replace_imported")
+  /\ IsEvent("replace_imported") /\ HandedParams
   /\ IF CanReplaceImported(st, Ev.id)
      THEN Ev.ret.ok /\ Ev.ret.id = Ev.id /\ Becomes(ReplaceImported(st, Ev.id, Refs(Ev)))
      ELSE ~Ev.ret.ok /\ Becomes(st)              \* an Err return leaves the module untouched
 TReplaceExported ==
-  /\ IsEvent("replace_exported")
+  /\ IsEvent("replace_exported") /\ HandedParams
   /\ IF CanReplaceExported(st, Ev.id)
      THEN Ev.ret.ok /\ Ev.ret.id = Len(st.funcs) /\ Becomes(ReplaceExported(st, Ev.id, Refs(Ev)))
      ELSE ~Ev.ret.ok /\ Becomes(st)
